@@ -45,7 +45,7 @@ func TestMain(m *testing.M) {
 	if os.Getenv("C20_CHILD") != "" {
 		os.Exit(firstUseChild(os.Getenv("C20_CHILD")))
 	}
-	R.Require("op:sm4_block", "op:sm3", "op:sm2_sign", "op:sm2_verify", "op:sm2_decrypt", "op:x509_verify", "op:pkcs7_ber", "op:sm4_mode", "goroutines>=16", "first_use", "shared_config_gm", "shared_config_tls", "conn_multi_writer", "conn_multi_reader", "conn_close_concurrent", "rotation_concurrent")
+	R.Require("op:cache", "op:sm4_block", "op:sm3", "op:sm2_sign", "op:sm2_verify", "op:sm2_decrypt", "op:x509_verify", "op:pkcs7_ber", "op:sm4_mode", "goroutines>=16", "first_use", "shared_config_gm", "shared_config_tls", "conn_multi_writer", "conn_multi_reader", "conn_close_concurrent", "rotation_concurrent", "cache_multikey_warm")
 	hx.Main(m, R)
 }
 
@@ -80,6 +80,10 @@ type material struct {
 	ber     []byte
 	berWant string
 	p7      []byte
+	// ONE client session cache shared by every goroutine; the values that may legitimately be stored under a key
+	cache     gmtls.ClientSessionCache
+	cacheCap  int
+	cacheVals map[string][]*gmtls.ClientSessionState
 }
 
 func describeChains(chains [][]*gx.Certificate, err error) string {
@@ -192,6 +196,18 @@ func prepare(t *rapid.T) *material {
 		certMat = c
 	})
 	m.pool, m.inter, m.certs, m.certDER, m.verWant = certMat.pool, certMat.inter, certMat.certs, certMat.certDER, certMat.verWant
+	m.cacheCap = rapid.IntRange(2, 4).Draw(t, "cachecap")
+	m.cache = gmtls.NewLRUClientSessionCache(m.cacheCap)
+	m.cacheVals = map[string][]*gmtls.ClientSessionState{}
+	for k := 0; k < 6; k++ {
+		key := fmt.Sprint("k", k)
+		for j := 0; j < 3; j++ {
+			m.cacheVals[key] = append(m.cacheVals[key], &gmtls.ClientSessionState{})
+		}
+		if k < m.cacheCap {
+			m.cache.Put(key, m.cacheVals[key][0]) // start full: lookups hit entries that are not at the front
+		}
+	}
 	// a BER (indefinite-length) PKCS#7 shell and a DER signed-data made by the library
 	m.ber = gen.DeepBER(3+rapid.IntRange(0, 20).Draw(t, "berdepth"), true)
 	_, e := gx.ParsePKCS7(m.ber)
@@ -208,7 +224,7 @@ func prepare(t *rapid.T) *material {
 	return m
 }
 
-var opKinds = []string{"sm4_block", "sm4_block", "sm4_block", "sm3", "sm3_stream", "sm4_mode", "sm2_sign", "sm2_verify", "sm2_decrypt", "sm2_encrypt", "sm2_keygen", "x509_parse", "x509_verify", "x509_verify", "pkcs7_ber", "pkcs7_verify"}
+var opKinds = []string{"cache", "cache", "sm4_block", "sm4_block", "sm4_block", "sm3", "sm3_stream", "sm4_mode", "sm2_sign", "sm2_verify", "sm2_decrypt", "sm2_encrypt", "sm2_keygen", "x509_parse", "x509_verify", "x509_verify", "pkcs7_ber", "pkcs7_verify"}
 
 // run performs one operation and returns "" or a description of the disagreement with the sequential value.
 func (m *material) run(o op) string {
@@ -314,6 +330,21 @@ func (m *material) run(o op) string {
 		if got := fmt.Sprint(err); got != m.berWant {
 			return fmt.Sprintf("ParsePKCS7(BER) = %q, single-threaded %q", got, m.berWant)
 		}
+	case "cache":
+		key := fmt.Sprint("k", o.Arg%6)
+		if o.Sel%4 == 0 {
+			m.cache.Put(key, m.cacheVals[key][o.Sel/4%3])
+			return ""
+		}
+		if v, ok := m.cache.Get(key); ok {
+			found := false
+			for _, x := range m.cacheVals[key] {
+				found = found || x == v
+			}
+			if !found {
+				return fmt.Sprintf("session cache returned under %q a value that was never stored under that key", key)
+			}
+		}
 	case "pkcs7_verify":
 		p7, err := gx.ParsePKCS7(m.p7)
 		if err != nil {
@@ -401,6 +432,20 @@ func TestC20_Workloads(t *testing.T) {
 			}
 			if errs[g] != "" {
 				t.Fatalf("a concurrent result differs from the single-threaded one (%d goroutines)\n%s\nplans: %+v", ng, errs[g], plans)
+			}
+		}
+		// the cache must still be a working LRU of its capacity: after cap fresh insertions exactly those remain
+		for j := 0; j < m.cacheCap; j++ {
+			m.cache.Put(fmt.Sprint("fresh", j), m.cacheVals["k0"][0])
+		}
+		for k := 0; k < 6; k++ {
+			if _, ok := m.cache.Get(fmt.Sprint("k", k)); ok {
+				t.Fatalf("session cache (capacity %d) still holds %q after %d newer insertions: the LRU bookkeeping was corrupted by concurrent use\nplans: %+v", m.cacheCap, fmt.Sprint("k", k), m.cacheCap, plans)
+			}
+		}
+		for j := 0; j < m.cacheCap; j++ {
+			if _, ok := m.cache.Get(fmt.Sprint("fresh", j)); !ok {
+				t.Fatalf("session cache (capacity %d) lost one of the %d most recent insertions after concurrent use\nplans: %+v", m.cacheCap, m.cacheCap, plans)
 			}
 		}
 		cl := []string{}
@@ -531,7 +576,7 @@ func TestC20_FirstUse(t *testing.T) {
 func TestC20_SharedConfig(t *testing.T) {
 	p := tlsx.GetPKI()
 	cn := 0
-	hx.Check(t, hx.N(20, 300), func(t *rapid.T) {
+	hx.Check(t, hx.N(30, 400), func(t *rapid.T) {
 		cn++
 		mode := rapid.SampledFrom([]string{"gm", "auto", "tls"}).Draw(t, "mode")
 		k := []int{2, 3, 4, 8, 12}[gen.Uniform(t, "connections", 5)]
@@ -558,7 +603,13 @@ func TestC20_SharedConfig(t *testing.T) {
 				cc.Certificates = []gmtls.Certificate{p.Client.TLS}
 			}
 		}
-		cc.ClientSessionCache = gmtls.NewLRUClientSessionCache(rapid.IntRange(1, 3).Draw(t, "cache"))
+		cc.ClientSessionCache = gmtls.NewLRUClientSessionCache(rapid.IntRange(1, 4).Draw(t, "cache"))
+		// several cache keys (server addresses): lookups then touch entries that are not at the front of the LRU list
+		names := []string{"server:443"}
+		if rapid.Bool().Draw(t, "multikey") {
+			cc.ServerName, cc.InsecureSkipVerify = "", true
+			names = []string{"a:443", "b:443", "c:443"}
+		}
 		keys := [][32]byte{{1, byte(cn)}}
 		sc.SetSessionTicketKeys(keys)
 		type outcome struct {
@@ -566,16 +617,18 @@ func TestC20_SharedConfig(t *testing.T) {
 			cs, ss   []byte
 			panicked *hx.PanicInfo
 		}
-		outs := make([]outcome, k+1)
+		outs := make([]outcome, k+3)
 		runOne := func(i int) {
 			o := &outs[i]
 			o.cs, o.ss = fill(uint64(cn*100+i), 100+i*977), fill(uint64(cn*100+i+50), 3000+i*1313)
 			o.panicked = hx.Try(func() {
-				o.r = tlsx.Run(cc, sc, tlsx.Script{ClientSend: o.cs, ServerSend: o.ss, ClientAddr: fmt.Sprint("client:", i), ServerAddr: "server:443"})
+				o.r = tlsx.Run(cc, sc, tlsx.Script{ClientSend: o.cs, ServerSend: o.ss, ClientAddr: fmt.Sprint("client:", i), ServerAddr: names[i%len(names)]})
 			})
 		}
 		if warm {
-			runOne(k)
+			for j := range names {
+				runOne(k + j)
+			}
 		}
 		var start, done sync.WaitGroup
 		start.Add(1)
@@ -657,6 +710,9 @@ func TestC20_SharedConfig(t *testing.T) {
 			}
 		}
 		cl := []string{"shared_config_" + map[string]string{"gm": "gm", "auto": "gm", "tls": "tls"}[mode]}
+		if len(names) > 1 && warm {
+			cl = append(cl, "cache_multikey_warm")
+		}
 		if rotations > 0 {
 			cl = append(cl, "rotation_concurrent")
 		}
